@@ -2,6 +2,7 @@ import Idn.Descr
 import Idn.Basic
 import Idn.Merge
 import Idn.MergeIndex
+import Idn.CouplesMerge
 import Idn.Devs
 namespace IdnDrv
 open Idn
@@ -28,6 +29,29 @@ partial def loop (h : IO.FS.Stream) : IO Unit := do
     let shw := fun (s : String) => if s = "" then "_" else s
     IO.println (";".intercalate (strs.map shw) ++ " # " ++
       " ".intercalate (idx.map fun (k, v) => s!"{shw k}={v.final},{v.first},{v.second}"))
+  | ["cm", f1, l1, fm1, pm1, pf1, p1, f2, l2, fm2, pm2, pf2, p2] =>
+    let strs := fun (s : String) => if s = "-" then [] else s.splitOn ","
+    let ints := fun (s : String) => if s = "-" then [] else (s.splitOn ",").map (·.toInt!)
+    let cells := fun (s : String) => if s = "-" then ([] : CmM.Cells) else (s.splitOn ",").filterMap fun c =>
+      match c.splitOn "=" with
+      | [k, v] => (match k.splitOn ":" with | [i, j] => some ((i.toNat!, j.toNat!), v.toInt!) | _ => none)
+      | _ => none
+    let rows := fun (s : String) => if s = "-" then ([] : List (List Nat)) else (s.splitOn ";").map fun r =>
+      if r = "_" then [] else (r.splitOn ".").map (·.toNat!)
+    let ppl := fun (s : String) => if s = "-" then [] else (s.splitOn ";").map fun e => e.splitOn "|"
+    let r1 : CmM.Res := ⟨strs f1, ints l1, cells fm1, cells pm1, rows pf1, ppl p1⟩
+    let r2 : CmM.Res := ⟨strs f2, ints l2, cells fm2, cells pm2, rows pf2, ppl p2⟩
+    let o := CmM.merge r1 r2
+    let shc := fun (m : CmM.Cells) =>
+      ",".intercalate ((m.mergeSort (fun x y => x.1.1 < y.1.1 || (x.1.1 == y.1.1 && x.1.2 ≤ y.1.2))).map
+        fun ((i, j), v) => s!"{i}:{j}={v}")
+    let shr := fun (l : List (List Nat)) => ";".intercalate (l.map fun r => ".".intercalate (r.map toString))
+    IO.println (",".intercalate o.files ++ " # " ++ ",".intercalate (o.lines.map toString) ++ " # " ++ shc o.fm ++ " # " ++
+      shc o.pm ++ " # " ++ shr o.pf ++ " # " ++ ";".intercalate o.people)
+  | ["car", b1, e1, c1, b2, e2, c2] =>
+    (match CmM.Car.merge ⟨b1.toInt!, e1.toInt!, c1.toInt!⟩ ⟨b2.toInt!, e2.toInt!, c2.toInt!⟩ with
+    | some c => IO.println s!"{c.begin} {c.finish} {c.commits}"
+    | none => IO.println "panic")
   | ["mrgwf", a, b] =>
     let parse := fun (s : String) => if s = "-" then [] else
       (s.splitOn ";").map fun e => (e.splitOn "|").map fun t => if t = "_" then "" else t
